@@ -48,8 +48,10 @@ func (e *Env) sortByName(s string) *Sort {
 		return StrSort
 	case "F64":
 		return F64Sort
-	case "bytes", "IntArray":
+	case "bytes", "IntArray", "ObjIntArray":
 		return ArraySort(IntSort, IntSort)
+	case "ObjSet":
+		return ArraySort(IntSort, BoolSort)
 	case "StrSet":
 		return ArraySort(StrSort, BoolSort)
 	case "IntSet":
@@ -410,6 +412,17 @@ func (e *Env) sliceExpr(n *SNode) SV {
 	B := x.B
 	base := e.eval(n.Args[0])
 	if base.V == nil {
+		if base.T != nil && base.T.Sort == StrSort {
+			lo := B.Int(0)
+			hi := x.strLen(base.T)
+			if n.Args[1] != nil {
+				lo = e.term(e.eval(n.Args[1]))
+			}
+			if n.Args[2] != nil {
+				hi = e.term(e.eval(n.Args[2]))
+			}
+			return svTerm(x.subStr(base.T, lo, hi))
+		}
 		e.fail("slice expression on non-Go value")
 	}
 	v := *base.V
